@@ -25,7 +25,7 @@ RULE = (
 ASSUMPTIONS = [
     "indices in range (the property's precondition)",
     "UnionFind n <= 6 quick / 7 thorough searched to closure; FenwickTree n <= 5, deltas {1,-1,3}, initial values "
-    "{0,1,-2}^n or the size form, histories to depth 4 (quick) / 5 (thorough)",
+    "{0,1,-2}^n or the size form, histories to depth 4 (quick) / 5 (thorough); n = 6..9 from 4+n structured initial vectors to depth 2-3",
     "objects are deterministic functions of their fields (snapshot keeps all slots / __dict__ entries)",
 ]
 
@@ -98,11 +98,18 @@ def _apply(obj, op):
     return getattr(obj, name)(*op[1:])
 
 
-def uf_search(n, max_states=None):
+DEEP8Q = [(0, 1), (2, 3), (4, 5), (6, 7), (1, 3), (5, 7), (3, 7), (7, 3), (0, 6)]
+DEEP8 = [(0, 1), (1, 0), (2, 3), (4, 5), (6, 7), (1, 3), (3, 1), (5, 7), (7, 5), (3, 7), (7, 3), (0, 7), (7, 0), (2, 6)]
+
+
+def uf_search(n, max_states=None, unions=None):
     from solvor.utils.data_structures import UnionFind
 
     r = new_result()
     ops = _uf_ops(n)
+    if unions is not None:
+        # restricted union alphabet (a declared bound, not a symmetry claim); queries stay complete
+        ops = [("union", i, j) for i, j in unions] + [o for o in ops if o[0] != "union"]
     init = UnionFind(n)
     part0 = frozenset(frozenset([i]) for i in range(n))
     s0 = (freeze(init), part0)
@@ -303,7 +310,12 @@ def ft_search(n, init, depth):
 def _uf_chunk(params, lo, hi):
     out = new_result()
     for k in range(lo, hi):
-        _merge(out, uf_search(params[k]))
+        if params[k] in ("deep8", "deep8q"):
+            r = uf_search(8, unions=DEEP8 if params[k] == "deep8" else DEEP8Q)
+            r["counters"]["uf_states_deep8"] = r["counters"].pop("uf_states_n8", 0)
+            _merge(out, r)
+        else:
+            _merge(out, uf_search(params[k]))
     return out
 
 
@@ -312,6 +324,11 @@ def _ft_cases(nmax, depth):
     for n in range(1, nmax + 1):
         for init in itertools.product((0, 1, -2), repeat=n):
             cases.append((n, init, depth))
+    # larger trees (three index levels: n up to 9) from a structured set of initial vectors, shallower histories
+    for n in (6, 7, 8, 9):
+        inits = [None, (1,) * n, tuple(i % 2 for i in range(n)), tuple(range(1, n + 1))] + [tuple(3 if i == k else 0 for i in range(n)) for k in range(n)]
+        for init in inits:
+            cases.append((n, init, min(depth, 3) - (1 if n >= 8 else 0)))
     return cases
 
 
@@ -340,15 +357,16 @@ def _merge(out, r):
 
 def jobs(tier, seed):
     uf_ns = [7, 6, 5, 4, 3, 2, 1] if tier == "thorough" else [6, 5, 4, 3, 2, 1]
+    uf_ns = ["deep8" if tier == "thorough" else "deep8q"] + uf_ns  # n = 8 with 14 declared union pairs: trees of depth 3 (rank 3), every query in every state
     depth = 5 if tier == "thorough" else 4
     ft = _ft_cases(5, depth)
     if tier == "quick":
         # n=5 with all 243 initial vectors at depth 4 is the expensive part; quick keeps every n<=4 initial
         # vector, and for n=5 the size form plus the initial vectors selected by the rotating block VERIF_SEED%3
-        ft = [c for c in ft if c[0] <= 4 or c[1] is None or (sum(1 for v in c[1] if v) % 3 == seed % 3)]
+        ft = [c for c in ft if c[0] != 5 or c[1] is None or (sum(1 for v in c[1] if v) % 3 == seed % 3)]
     ft.sort(key=lambda c: -c[0])
     return [
-        Job("unionfind_closure", len(uf_ns), _uf_chunk, uf_ns, chunk=1, describe=f"BFS to closure for n in {uf_ns}"),
+        Job("unionfind_closure", len(uf_ns), _uf_chunk, uf_ns, chunk=1, describe=f"BFS to closure for n in {uf_ns[1:]}; plus n=8 to closure over the declared union alphabet {DEEP8 if tier == 'thorough' else DEEP8Q}"),
         Job("fenwick_depth%d" % depth, len(ft), _ft_chunk, ft, chunk=max(1, len(ft) // 128), describe="(n, initial vector) x all histories to the depth bound"),
     ]
 
